@@ -190,14 +190,31 @@ theorem quoteName_inv (cfg : SafeCfg) (hos : cfg.os ≠ .other) (name q : Str) (
           obtain ⟨c, _, hx⟩ := hx
           exact (encChar_spec cfg hos c).1 x hx
 
-theorem winTrailing_eq (cfg : SafeCfg) (q w : Str) (h : winTrailing cfg q = .ok w) : w = q := by
-  unfold winTrailing at h
-  split at h
-  · split at h
-    · cases h
-    · split at h <;> cases h
-      rfl
-  · cases h; rfl
+theorem winTrailing_inv (cfg : SafeCfg) (q : Str) (hq : Inv cfg q) : Inv cfg (winTrailing cfg q) := by
+  unfold winTrailing
+  split
+  · split
+    · exact hq
+    · rename_i c hc
+      split
+      · rename_i hcc
+        have hc256 : c < 256 := by
+          simp at hcc; omega
+        have hlast : (q.dropLast ++ pct c).getLast? = some (hexChar (c % 16)) := by
+          have : q.dropLast ++ pct c = (q.dropLast ++ [37, hexChar (c / 16)]) ++ [hexChar (c % 16)] := by
+            simp [pct]
+          rw [this, List.getLast?_concat]
+        have hne : hexChar (c % 16) ≠ 46 := by unfold hexChar; split <;> omega
+        refine ⟨⟨?_, ?_, ?_⟩, ?_⟩
+        · intro h; rw [h] at hlast; simp at hlast
+        · intro h; rw [h] at hlast; simp [dot] at hlast; exact hne hlast.symm
+        · intro h; rw [h] at hlast; simp [dotdot] at hlast; exact hne hlast.symm
+        · intro x hx
+          rcases List.mem_append.mp hx with hx | hx
+          · exact hq.2 x ((List.dropLast_sublist _).subset hx)
+          · exact pct_good cfg hc256 x hx
+      · exact hq
+  · exact hq
 
 theorem truncate_inv (cfg : SafeCfg) (sha : Str → Str) (w : Str) (hd : ShaSane sha) (hw : Inv cfg w) :
     Inv cfg (truncate cfg sha w) := by
@@ -318,14 +335,9 @@ theorem safe_component (cfg : SafeCfg) (tbl : Nat → Str) (sha : Str → Str) (
   split at h
   · cases h
   · rename_i q hq
-    split at h
-    · cases h
-    · rename_i w hw
-      cases h
-      have hwq := winTrailing_eq cfg q w hw
-      subst hwq
-      exact inv_safe cfg _ (foldStr_inv cfg tbl ht cfg.case _
-        (truncate_inv cfg sha _ hd (quoteName_inv cfg hos name _ hn hq)))
+    cases h
+    exact inv_safe cfg _ (foldStr_inv cfg tbl ht cfg.case _
+      (truncate_inv cfg sha _ hd (winTrailing_inv cfg q (quoteName_inv cfg hos name _ hn hq))))
 
 /-! ### which inputs raise -/
 
@@ -374,78 +386,148 @@ theorem quote_last (cfg : SafeCfg) (name : Str) :
     simp only [List.getLast?_concat, List.concat_eq_append, Option.some.injEq]
     refine ⟨by simp, h32, h46⟩
 
-/-- **error_branch** (DESIGN.md C15 T, section 7 row 17).  Exactly which inputs make
-`safe_filename` raise, for every configuration:
-* a lone surrogate in the name → `UnicodeEncodeError` (`filename.encode('utf8')`);
-* Windows mode and the empty name → `IndexError` (`new_filename[-1]`);
-* Windows mode and a name (other than "." / "..") whose last character is a space
-  or a dot → `ValueError`: `'{1:02X}'.format(str)` can never succeed, so the
-  "escape the trailing character" branch is in fact "raise".
-Nothing else raises; no path is produced on these inputs. -/
+/-- **error_branch** (DESIGN.md C15 T, section 7 row 17), for the repaired code.
+Exactly which inputs make `safe_filename` raise, for every configuration: a lone
+surrogate in a name other than "." / ".." → `UnicodeEncodeError`
+(`filename.encode('utf8')`).  Nothing else raises: in particular Windows mode no
+longer raises for names ending in a blank or a dot, nor for the empty name. -/
 theorem error_branch (cfg : SafeCfg) (tbl : Nat → Str) (digest : Str → Str) (name : Str) (e : PyExc) :
     safeFilename cfg tbl digest name = .error e ↔
-      (name ≠ dot ∧ name ≠ dotdot) ∧
-      ((name.any isSurrogate = true ∧ e = .UnicodeEncodeError) ∨
-       (name.any isSurrogate = false ∧ cfg.os = .windows ∧
-         ((name = [] ∧ e = .IndexError) ∨
-          ((name.getLast? = some 32 ∨ name.getLast? = some 46) ∧ e = .ValueError)))) := by
+      name ≠ dot ∧ name ≠ dotdot ∧ name.any isSurrogate = true ∧ e = .UnicodeEncodeError := by
+  unfold safeFilename quoteName
   by_cases hd : name = dot
-  · subst hd
-    cases hos : cfg.os <;> simp [safeFilename, quoteName, winTrailing, hos, lit, dot, dotdot]
+  · simp [hd]
   by_cases hdd : name = dotdot
-  · subst hdd
-    cases hos : cfg.os <;> simp [safeFilename, quoteName, winTrailing, hos, lit, dot, dotdot]
+  · simp [hdd, dot, dotdot]
   by_cases hs : name.any isSurrogate = true
-  · have : safeFilename cfg tbl digest name = .error .UnicodeEncodeError := by
-      simp [safeFilename, quoteName, hd, hdd, hs]
-    rw [this]
-    simp [hd, hdd, hs]
+  · simp [hd, hdd, hs]
     exact eq_comm
-  · have hs' : name.any isSurrogate = false := by simpa using hs
-    obtain ⟨hnil, h32, h46⟩ := quote_last cfg name
-    have hq : quoteName cfg name = .ok (name.flatMap (encChar cfg)) := by
-      simp [quoteName, hd, hdd, hs]
-    by_cases hw : cfg.os = .windows
-    · cases hl : (name.flatMap (encChar cfg)).getLast? with
-      | none =>
-        have hn : name = [] := hnil.mp (List.getLast?_eq_none_iff.mp hl)
-        have : safeFilename cfg tbl digest name = .error .IndexError := by
-          simp [safeFilename, hq, winTrailing, hw, hl]
-        rw [this]
-        subst hn
-        simp [hw, dot, dotdot]
-        exact eq_comm
-      | some c =>
-        have hn : name ≠ [] := by
-          intro h; rw [h] at hl; simp at hl
-        by_cases hc : c = 32 ∨ c = 46
-        · have : safeFilename cfg tbl digest name = .error .ValueError := by
-            rcases hc with rfl | rfl <;> simp [safeFilename, hq, winTrailing, hw, hl]
-          rw [this]
-          have hlast : name.getLast? = some 32 ∨ name.getLast? = some 46 := by
-            rcases hc with rfl | rfl
-            · exact Or.inl (h32.mp hl)
-            · exact Or.inr (h46.mp hl)
-          simp [hd, hdd, hs', hw, hn, hlast]
-          exact eq_comm
-        · have hok : ∃ r, safeFilename cfg tbl digest name = .ok r := by
-            have h1 : c ≠ 32 := fun h => hc (Or.inl h)
-            have h2 : c ≠ 46 := fun h => hc (Or.inr h)
-            exact ⟨foldStr tbl cfg.case (truncate cfg digest (name.flatMap (encChar cfg))),
-              by simp [safeFilename, hq, winTrailing, hw, hl, h1, h2]⟩
-          obtain ⟨r, hr⟩ := hok
-          rw [hr]
-          have hlast : ¬(name.getLast? = some 32 ∨ name.getLast? = some 46) := by
-            rintro (h | h)
-            · have := h32.mpr h; rw [hl] at this; simp at this; exact hc (Or.inl this)
-            · have := h46.mpr h; rw [hl] at this; simp at this; exact hc (Or.inr this)
-          simp [hs', hn, hlast]
-    · have hok : ∃ r, safeFilename cfg tbl digest name = .ok r :=
-        ⟨foldStr tbl cfg.case (truncate cfg digest (name.flatMap (encChar cfg))),
-          by simp [safeFilename, hq, winTrailing, hw]⟩
-      obtain ⟨r, hr⟩ := hok
-      rw [hr]
-      simp [hw, hs']
+  · simp [hd, hdd, hs]
+
+/-- a name for which the code answers at all never raises in Windows mode because of
+its last character: total on surrogate-free names -/
+theorem safe_filename_total (cfg : SafeCfg) (tbl : Nat → Str) (sha : Str → Str) (name : Str)
+    (hs : name.any isSurrogate = false) : ∃ r, safeFilename cfg tbl sha name = .ok r := by
+  cases h : safeFilename cfg tbl sha name with
+  | ok r => exact ⟨r, rfl⟩
+  | error e =>
+    have := (error_branch cfg tbl sha name e).mp h
+    rw [hs] at this
+    exact absurd this.2.2.1 (by simp)
+
+/-! ### Windows mode: no trailing blank or dot -/
+
+theorem winTrailing_last (cfg : SafeCfg) (hw : cfg.os = .windows) (q : Str) :
+    (winTrailing cfg q).getLast? ≠ some 32 ∧ (winTrailing cfg q).getLast? ≠ some 46 := by
+  unfold winTrailing
+  simp only [hw, beq_self_eq_true, if_true]
+  split
+  · rename_i h; simp [h]
+  · rename_i c hc
+    split
+    · have hlast : (q.dropLast ++ pct c).getLast? = some (hexChar (c % 16)) := by
+        have : q.dropLast ++ pct c = (q.dropLast ++ [37, hexChar (c / 16)]) ++ [hexChar (c % 16)] := by
+          simp [pct]
+        rw [this, List.getLast?_concat]
+      rw [hlast]
+      have := hexChar_ne (c % 16)
+      simp; omega
+    · rename_i hcc
+      rw [hc]
+      simp at hcc ⊢
+      omega
+
+theorem truncate_last (cfg : SafeCfg) (sha : Str → Str) (hd : ShaSane sha) (w : Str)
+    (hw : w.getLast? ≠ some 32 ∧ w.getLast? ≠ some 46) :
+    (truncate cfg sha w).getLast? ≠ some 32 ∧ (truncate cfg sha w).getLast? ≠ some 46 := by
+  unfold truncate
+  split
+  · obtain ⟨hlen, hhex⟩ := hd w
+    generalize sha w = d at hlen hhex
+    have hne : List.take 8 d ≠ [] := by
+      intro h
+      have h8 : (List.take 8 d).length = 8 := by simp; omega
+      rw [h] at h8; simp at h8
+    obtain ⟨init, l, hl⟩ : ∃ init l, List.take 8 d = init ++ [l] := by
+      rcases List.eq_nil_or_concat (List.take 8 d) with h | ⟨L, b, h⟩
+      · exact absurd h hne
+      · exact ⟨L, b, by simpa [List.concat_eq_append] using h⟩
+    have hlhex : isLowerHex l = true := hhex l (by rw [hl]; simp)
+    have hlast : (List.take (cfg.maxLen - 8).toNat w ++ List.take 8 d).getLast? = some l := by
+      rw [hl, ← List.append_assoc, List.getLast?_concat]
+    rw [hlast]
+    simp [isLowerHex, isAsciiDigit] at hlhex
+    simp; omega
+  · exact hw
+
+theorem foldChar_last (tbl : Nat → Str) (ht : TableSane tbl) (m : CaseMode) (c : Nat) :
+    ∃ init l, foldChar tbl m c = init ++ [l] ∧ ((l = 32 ∨ l = 46) → (c = 32 ∨ c = 46)) := by
+  cases m with
+  | none => exact ⟨[], c, by simp [foldChar], id⟩
+  | lower =>
+    simp only [foldChar]
+    split
+    · refine ⟨[], asciiLower c, by simp, ?_⟩
+      unfold asciiLower isAsciiUpper
+      split <;> simp_all <;> omega
+    · rename_i h128
+      obtain ⟨hne, hall⟩ := ht c (by omega)
+      rcases List.eq_nil_or_concat (tbl c) with h | ⟨L, b, h⟩
+      · exact absurd h hne
+      · refine ⟨L, b, by simpa [List.concat_eq_append] using h, ?_⟩
+        intro hb
+        have := hall b (by rw [h]; simp [List.concat_eq_append])
+        simp [isAsciiAlpha, isAsciiUpper, isAsciiLower] at this
+        omega
+  | upper =>
+    simp only [foldChar]
+    split
+    · refine ⟨[], asciiUpper c, by simp, ?_⟩
+      unfold asciiUpper isAsciiLower
+      split <;> simp_all <;> omega
+    · rename_i h128
+      obtain ⟨hne, hall⟩ := ht c (by omega)
+      rcases List.eq_nil_or_concat (tbl c) with h | ⟨L, b, h⟩
+      · exact absurd h hne
+      · refine ⟨L, b, by simpa [List.concat_eq_append] using h, ?_⟩
+        intro hb
+        have := hall b (by rw [h]; simp [List.concat_eq_append])
+        simp [isAsciiAlpha, isAsciiUpper, isAsciiLower] at this
+        omega
+
+theorem foldStr_last (tbl : Nat → Str) (ht : TableSane tbl) (m : CaseMode) (s : Str)
+    (hs : s.getLast? ≠ some 32 ∧ s.getLast? ≠ some 46) :
+    (foldStr tbl m s).getLast? ≠ some 32 ∧ (foldStr tbl m s).getLast? ≠ some 46 := by
+  rcases List.eq_nil_or_concat s with h | ⟨L, c, h⟩
+  · subst h; simp [foldStr]
+  · subst h
+    obtain ⟨init, l, he, hl⟩ := foldChar_last tbl ht m c
+    have hq : foldStr tbl m (L.concat c) = (L.flatMap (foldChar tbl m) ++ init) ++ [l] := by
+      simp [foldStr, List.concat_eq_append, List.flatMap_append, he]
+    rw [hq, List.getLast?_concat]
+    simp only [List.concat_eq_append, List.getLast?_concat, ne_eq, Option.some.injEq] at hs ⊢
+    constructor
+    · intro h; rcases hl (Or.inl h) with h' | h'
+      · exact hs.1 h'
+      · exact hs.2 h'
+    · intro h; rcases hl (Or.inr h) with h' | h'
+      · exact hs.1 h'
+      · exact hs.2 h'
+
+/-- **windows_no_trailing_dot_or_blank**: in Windows mode, for every name, case table and
+hash, a component `safe_filename` returns never ends in a blank or a dot (which Windows
+would silently strip): the trailing character is percent-encoded, and neither the
+truncation (ends in a hex digit) nor case folding brings one back. -/
+theorem windows_no_trailing_dot_or_blank (cfg : SafeCfg) (tbl : Nat → Str) (sha : Str → Str) (name r : Str)
+    (hw : cfg.os = .windows) (ht : TableSane tbl) (hd : ShaSane sha)
+    (h : safeFilename cfg tbl sha name = .ok r) :
+    r.getLast? ≠ some 32 ∧ r.getLast? ≠ some 46 := by
+  unfold safeFilename at h
+  split at h
+  · cases h
+  · rename_i q _
+    cases h
+    exact foldStr_last tbl ht cfg.case _ (truncate_last cfg sha hd _ (winTrailing_last cfg hw q))
 
 /-! ### get_filename: helper lemmas -/
 
@@ -1104,6 +1186,16 @@ theorem argv_content_disposition_contained (modes : List Mode) (maxLen : Int)
   | .inl h => .inl h
   | .inr ⟨comp, h1, h2, _⟩ => .inr ⟨comp, h1, h2⟩
 
+/-- **get_filename_raises_counterexample** (known finding `namer-raises` / `urlsplit`):
+`get_filename` is NOT total on the urls `URLInfo.url` produces.  `[` and `]` in the
+user name or password are not percent-encoded by `wpull/url.py`, and the interpreter's
+`urlsplit` (called again by `url_to_dir_parts` / `url_to_filename`) refuses a netloc
+with an unmatched bracket: no local path is chosen for `http://[u@h/`.  Containment is
+not affected (`get_filename_contained` speaks about every path that IS returned). -/
+theorem get_filename_raises_counterexample :
+    getFilename ⟨⟨.unix, true, true, .none, 0⟩, lit "dl", lit "index.html", true, 0, false, true⟩
+      (fun c => [c]) (fun _ => []) ⟨true, true⟩ false (lit "http://[u@h/") = .error .ValueError := by decide
+
 /-! ## non-vacuity -/
 
 example : (optionsToCfg [.ascii, .lower] 160).os = .unix := by decide
@@ -1113,8 +1205,9 @@ example : (optionsToCfg [] 160) = ⟨.unix, true, false, .none, 160⟩ := rfl
 example : safeFilename ⟨.unix, true, true, .none, 0⟩ (fun c => [c]) (fun _ => []) (lit "..") = .ok (lit "%2E%2E") := by decide
 example : safeFilename ⟨.unix, true, true, .lower, 0⟩ (fun c => [c]) (fun _ => []) [97, 0, 233] = .ok (lit "a%00%c3%a9") := by decide
 example : safeFilename ⟨.unix, true, true, .none, 9⟩ (fun c => [c]) (fun _ => lit "0123456789abcdef") (lit "/////") = .ok (lit "%01234567") := by decide
-example : safeFilename ⟨.windows, true, false, .none, 0⟩ (fun c => [c]) (fun _ => []) (lit "a.") = .error .ValueError := by decide
-example : safeFilename ⟨.windows, true, false, .none, 0⟩ (fun c => [c]) (fun _ => []) [] = .error .IndexError := by decide
+example : safeFilename ⟨.windows, true, false, .none, 0⟩ (fun c => [c]) (fun _ => []) (lit "a.") = .ok (lit "a%2E") := by decide
+example : safeFilename ⟨.windows, true, false, .upper, 0⟩ (fun c => [c]) (fun _ => []) (lit "x. ") = .ok (lit "X.%20") := by decide
+example : safeFilename ⟨.windows, true, false, .none, 0⟩ (fun c => [c]) (fun _ => []) [] = .ok [] := by decide
 example : safeFilename ⟨.unix, true, false, .none, 0⟩ (fun c => [c]) (fun _ => []) [0xD800] = .error .UnicodeEncodeError := by decide
 example : unquote (lit "%2E%2E%2Fa%FF") = [46, 46, 47, 97, 0xFFFD] := by decide
 example : getFilename ⟨⟨.unix, true, true, .none, 0⟩, lit "dl", lit "index.html", true, 0, false, true⟩
